@@ -58,6 +58,35 @@ Definition vactoair_ok (x r : Q) : bool :=
 
 Close Scope Q_scope.
 
+(* ---------- masked pixels (documented: "Interpolate over pixels where mask is non-zero") ---------- *)
+Open Scope Q_scope.
+(* a pixel is bad iff its mask value is not zero: negative flag values (-1, the sign bit of a signed integer), any bit of
+   any width, non-integer values alike *)
+Definition bad_S (m : Q) : bool := negb (Qeq_bool m 0).
+
+(* a row is a list of (flux value, mask value) *)
+Fixpoint good_vals (l : list (Q * Q)) : list Q :=
+  match l with [] => [] | (v, m) :: t => if bad_S m then good_vals t else v :: good_vals t end.
+Fixpoint lmin (l : list Q) (d : Q) : Q := match l with [] => d | f :: t => lmin t (if Qle_bool f d then f else d) end.
+Fixpoint lmax (l : list Q) (d : Q) : Q := match l with [] => d | f :: t => lmax t (if Qle_bool d f then f else d) end.
+
+(* what the property demands of the row r that enters the band sums, given the caller's row l: good pixels keep their value
+   exactly, bad pixels are replaced by something within [lo, hi] (the range of the good values) *)
+Fixpoint fill_rows (l : list (Q * Q)) (r : list Q) (lo hi tol : Q) : bool :=
+  match l, r with
+  | [], [] => true
+  | (v, m) :: t, x :: u =>
+      (if bad_S m then Qle_bool (lo - tol) x && Qle_bool x (hi + tol) else Qeq_bool x v) && fill_rows t u lo hi tol
+  | _, _ => false
+  end.
+(* certified checker S for one interpolated row; nothing can be demanded of a row without any good pixel *)
+Definition fill_ok (l : list (Q * Q)) (r : list Q) (tol : Q) : bool :=
+  match good_vals l with
+  | [] => Nat.eqb (length l) (length r)
+  | g0 :: gs => fill_rows l r (lmin gs g0) (lmax gs g0) tol
+  end.
+Close Scope Q_scope.
+
 (* ---------- sdssflux2ab ---------- *)
 Open Scope R_scope.
 Definition ab_offset (band : nat) : R :=
